@@ -179,10 +179,10 @@ func (g *txgen) liveRecs(acct int, from uint64) []*txrec {
 
 // gen draws one transaction for a submission. Kind 0 is the boring one: the next nonce of a
 // funded account at a normal price.
-func (g *txgen) gen() *txrec {
+func (g *txgen) gen(from []int) *txrec {
 	w := g.w
 	c := w.r.C
-	acct := c.Intn("tx-account", w.nAcc)
+	acct := from[c.Intn("tx-account", len(from))]
 	head := w.chain.head
 	stNonce := head.nonce[acct]
 	bal := head.bal[acct]
